@@ -44,13 +44,14 @@ C16_O5_e2e|Iora.C16.O5_end_to_end|proved|capstone: responses wire-safe + fitting
 C16_O1_wire|Iora.C16.O1_wire_partial|partial|pool + engine + framer composed: under OneInFlight, no overflow, workers idle and FitsBuffer, if the commands of a session's requests are the Sends of wire-safe responses rs (+ at most one final Close), the bytes the client reads split into exactly rs, in request order, for every kernel / event-loop behaviour
 C16_O1_drain|Iora.C16.O1_upgrade_drain|proved|accepted upgrade with bytes of the upgraded protocol behind the request (buffered with it, or queued behind under the upgrade hold while the worker drains): the calls are the upgrade response (if the transport is up) followed by at most one Close; the drain is a loop, pass k hands the buffer to the virtual onUpgradedData; the Close exactly when some pass threw (std or not) with the transport still up; the hook is called once per pass up to and including the first throwing one and never after; never a second Send (FC16c; on a tree without the drain's own catch (...) Gen.upgradeDrainGuarded is false and drainLoop_eq / processCalls_shape do not build)
 C16_O1_overflow_env|Iora.C16.O1_overflow_every_env|proved|sendErrorResponse on pool overflow in every environment: nothing while `_transport && !_shutdown` fails, otherwise 503 Send + Close, and the Close also when the engine refused the Send (never open-and-unanswered); on a running server these are the overflowCmds of the pool theorems
-C16_O1_restart|Iora.C16.O1_restart|proved|across any schedule of arrivals, picks, emits, stop() and start() calls on one HttpServer object every engine command reaches the transport its request arrived on — a worker that outlives stop()'s 2 s drain wait never addresses the next transport, whose session ids start at 1 again (FC16e repaired: epoch captured at dispatch, compared inside all 7 guarded blocks; does not build on the unrepaired tree)
+C16_O1_restart|Iora.C16.O1_restart|proved|across any schedule of arrivals, picks, emits, stop() and start() calls on one HttpServer object every engine command reaches the transport its request arrived on — a worker that outlives stop()'s 2 s drain wait never addresses the next transport, whose session ids start at 1 again (FC16e repaired: epoch read by handleIncomingData and captured by value at dispatch — Gen.epochCapturedAtDispatch —, compared inside all 7 guarded blocks; holds for requests running AND requests still queued at stop(); does not build on a tree without the check or with the epoch read at task start)
+C16_O1_restart_late_epoch|Iora.C16.O1_restart_epoch_at_task_start_refuted|proved|what capturing the epoch AT DISPATCH prevents (seed C16-e): guards that compare an epoch read only when a worker starts the task still send a request that was QUEUED across stop()+start() to the new transport (witness: arrive on session 1, stop, start, pick, emit); the request already running at stop() is protected by either
 C16_O1_restart_unguarded|Iora.C16.O1_restart_unguarded_refuted|proved|what FC16e's repair prevents: for the worker without the epoch check the statement is false (witness: arrive on session 1, pick, stop, start, emit: a generation-0 request's Send is delivered by the generation-1 transport)
 C16_O1_restart_drained|Iora.C16.O1_restart_partial_drained|proved|with or without the epoch check: if start() is only called when no task of the previous run is left, every command reaches the transport its request arrived on
 C16_O4_head_every_arm|Iora.C16.O4_head_every_arm|proved|FC16f repaired: request bytes whose request line starts with `HEAD ` get toWire st text H [] — not one byte behind the header section — from EVERY arm and in every environment: shutdown arm (503), error arm (400/414/501/505 parse rejects, 500 of a throwing hook), normal path (auto-HEAD, 405, 404, default handler); the arms outside the normal path decide from the raw bytes (isHeadRequest), the normal path from the parsed method, and the two readings agree for all bytes (fromWireFormat_head); an upgrade the subclass hook accepted is the hook's response; pool overflow is O1_overflow / O1_overflow_every_env with head = isHeadRaw data; does not build on a tree whose arms do not strip (Gen.errorArmsStripHead)
 C16_O4_head_parse|Iora.HttpRespond.fromWireFormat_head|proved|for all bytes: a request that starts with `HEAD ` and that fromWireFormat accepts has the parsed method HEAD (the raw-bytes test of the error arms and the parsed-method test of the normal path agree)
 C16_O4_head_partial|Iora.C16.O4_head_partial_normal_path|proved|the normal path alone, keyed on the parsed method: the response to HEAD is toWire st text H []
-C16_gen_restart|Iora.C16.gen_restart_and_write_queue|proved|Gen conformance: the dispatch lambda carries the transport epoch and every guarded block of the worker checks it, stop() waits 2 s, and poolQueueCap <= maxWriteQueue (start()'s config)
+C16_gen_restart|Iora.C16.gen_restart_and_write_queue|proved|Gen conformance: the dispatch lambda carries the transport epoch captured by value at dispatch and every guarded block of the worker checks it, stop() waits 2 s, and poolQueueCap <= maxWriteQueue (start()'s config)
 C16_gen_methods|Iora.C16.gen_methods|proved|Gen conformance: HttpMethod enumerators and parseMethod table agree with the model's Method type
 C16_gen_shape|Iora.C16.gen_connection_tokenised|proved|Gen conformance: the Connection decision found in the source is the tokenised one (F33 repaired) and the 204/304 reconciliation applies to every method (FC16a repaired)
 C16_gen_session|Iora.C16.gen_session_defaults|proved|Gen conformance: a default-constructed SessionInfo (version 1.1, keep-alive) never asks for close by itself; how many assignments to httpVersion / connectionKeepAlive exist in http_server.hpp is reported as an observation (evidence: session_field_writes), not pinned — a fix that starts honouring HTTP/1.0 must not fail the proof layer
@@ -1545,17 +1546,32 @@ def replay_findings(ctx, hb, keys):
     except Exception as ex:
         ctx.violation("correspondence", "FC16f regression ops (HEAD on the arms outside the normal path) could not be run: %s: %s / %s" % (type(ex).__name__, ex, [x[:80] for x in hout]),
                       {"broken": {"correspondence": "HEAD error-arm ops against the real code", "detail": str(hout)[:500]}, "ops": hops}, found_input=False)
-    # ---- FC16e: stop() + start() on one server object while a handler is still running (real server on loopback)
+    # ---- FC16e: stop() + start() on one server object while handlers are still RUNNING and a request is still QUEUED (real server on loopback).
+    # One write of nine pipelined requests: 8 x GET /hold (3.5 s each: the pool grows to its maximum, every worker is inside /hold) and one
+    # GET /fast that stays in the pool's queue across stop()'s 2 s drain wait and the following start(); client B takes over A's session id on
+    # the new transport; at ~3.5 s the /hold handlers return and a freed worker starts /fast.  None of the nine responses may reach B.
     hold = b"GET /hold HTTP/1.1\r\nHost: a\r\n\r\n"
-    rops = ["reset", "route GET %s sleep:3500,%s" % (hexs(b"/hold"), sc_content(b"SECRET-OF-CLIENT-A")), "e2e start", "e2e restart 2600 %s" % hexs(hold), "e2e stop"]
-    rout, rrc, rerr = ctx.run_lines([hb], rops, timeout=120)
+    fast_rq = b"GET /fast HTTP/1.1\r\nHost: a\r\n\r\n"
+    import vlib.core as _vcore
     try:
-        m = re.fullmatch(r"restart B=(\S+) A=(\S+)", rout[3])
+        pool_max = int(re.search(r"def poolMax : Nat := (\d+)", open(os.path.join(_vcore.LEAN, "IoraModel", "Gen", "HttpRespond.lean")).read()).group(1))
+    except (OSError, AttributeError):
+        pool_max = 8
+    rops = ["reset", "route GET %s sleep:3500,%s" % (hexs(b"/hold"), sc_content(b"SECRET-OF-CLIENT-A")), "route GET %s %s" % (hexs(b"/fast"), sc_content(b"FAST-REPLY-FOR-CLIENT-A")),
+            "e2e start", "e2e restart 2600 %s 1" % hexs(hold * pool_max + fast_rq), "e2e stop"]
+    rout, rrc, rerr = ctx.run_lines([hb], rops, timeout=120)
+    if len(rout) > 4 and rout[4].startswith("restart-precondition-failed"):
+        # machinery, not a property failure: the scenario needs every worker busy and one request queued when stop() is called
+        raise RuntimeError("e2e restart scenario: %s (pool maximum from Gen = %d) — the scenario no longer puts a request into the pool's queue" % (rout[4], pool_max))
+    try:
+        m = re.fullmatch(r"restart B=(\S+) A=(\S+)", rout[4])
         got_b = b"" if m.group(1) == "-" else unhex(m.group(1))
         res["FC16e_regression"] = "client B (connected after the restart, sent nothing) received %d bytes%s" % (len(got_b), (": %r" % got_b[:160]) if got_b else "")
         if got_b:
-            other.append("FC16e regression: stop() gave up on a running handler, start() on the same HttpServer object, and a client that sent nothing received %d bytes "
-                         "(a response addressed by a stale session id): %r" % (len(got_b), got_b[:200]))
+            which = "the request that was still QUEUED in the pool at stop()" if b"FAST-REPLY-FOR-CLIENT-A" in got_b and b"SECRET-OF-CLIENT-A" not in got_b else \
+                    "a request whose handler was RUNNING at stop()" if b"FAST-REPLY-FOR-CLIENT-A" not in got_b else "running and queued requests"
+            other.append("FC16e regression: stop() gave up on %d running handlers and one queued request, start() on the same HttpServer object, and a client that sent nothing "
+                         "received %d bytes — the response to %s, addressed by a stale session id: %r" % (pool_max, len(got_b), which, got_b[:200]))
     except Exception as ex:
         ctx.violation("correspondence", "FC16e regression scenario (stop()/start() with a running handler) could not be run: %s: %s / %s" % (type(ex).__name__, ex, [x[:80] for x in rout]),
                       {"broken": {"correspondence": "restart scenario against the real server on loopback", "detail": str(rout)[:500]}, "ops": rops}, found_input=False)
